@@ -7,6 +7,7 @@ def ents(q):
     return [E("vp_main_schedule", "schedule(closure owning heap state): executed exactly once while the caller only yields; not executed again / task storage not touched by a later parallel_for", q),
             E("vp_main_schedule_burst", "a burst of 1..3 schedule() calls: each executed exactly once", q),
             E("vp_main_asynctask", "AsyncTask<Payload> (Payload counts constructions, destructions and assignments into dead storage) built in raw storage: get() == returned value for every int, finished() afterwards, result slot constructed before it is assigned, constructed == destroyed", q),
+            E("vp_main_asynctask_heap", "heap AsyncTask<int> polled with finished(), read with get() and deleted at once: value complete, and no access to the freed task object by the task or the scheduler afterwards (heap obligations)", q),
             E("vp_main_asynctask_drop", "AsyncTask destroyed without get(): destructor waits, task ran exactly once", q)]
 
 
